@@ -26,7 +26,7 @@ class Sim:
     file (utime, touch, rewriting it ...) ends up in the interposed os.utime / the real file system, so the harness does not depend on
     the names the module happens to import"""
 
-    def __init__(self, deltas, death=None, removal=None, horizon=None):
+    def __init__(self, deltas, death=None, removal=None, horizon=None, parent=4242):
         import tempfile
         self.t0 = 1_000_000.0
         self.now = self.t0
@@ -42,7 +42,7 @@ class Sim:
         self.removed = False
         self.max_age = 0.0
         self.rounds = 0
-        self.parent = 4242
+        self.parent = parent       # the worker's pid as the helper sees it (1: the worker is the first process of a container / PID namespace)
 
     @property
     def exists(self):
@@ -99,9 +99,40 @@ class Sim:
         self.refreshes.append(self.now - self.t0)
 
 
+def helper_argv(sim):
+    """the command line the real lock class gives its helper (the worker's pid as the worker sees it is `sim.parent`), with the lock path replaced by the simulated one"""
+    import jug.backends.file_store as fs
+    captured = {}
+
+    class FakeP:
+        def __init__(self, args, *a, **kw):
+            captured['args'] = [str(x) for x in args]
+
+        def kill(self):
+            pass
+    saved_popen, saved_getpid = fs.Popen, os.getpid
+    fs.Popen = FakeP
+    os.getpid = lambda: sim.parent
+    try:
+        lk = fs.file_keepalive_based_lock(sim.dir, 'name-of-the-lock')
+        lk.start_monitor()
+        lk.monitor = None
+    finally:
+        fs.Popen = saved_popen
+        os.getpid = saved_getpid
+    args = captured.get('args', [])
+    tail = []
+    for i, a in enumerate(args):
+        if a.endswith('file_keepalive_monitor') or a.endswith('file_keepalive_monitor.py'):
+            tail = args[i + 1:]
+    tail = [sim.path if (j == 0 or a == getattr(lk, 'fullname', None)) else a for j, a in enumerate(tail)] or [sim.path]
+    return ['x'] + tail
+
+
 def run_monitor(sim):
     import time as _time
     import jug.backends.file_keepalive_monitor as mon
+    hargv = helper_argv(sim)
     patched = []
 
     def patch(obj, name, val):
@@ -120,8 +151,8 @@ def run_monitor(sim):
     import sys as _sys
     saved_argv = (mon.argv if hasattr(mon, 'argv') else None, list(_sys.argv))
     if hasattr(mon, 'argv'):
-        mon.argv = ['x', sim.path]
-    _sys.argv[:] = ['x', sim.path]
+        mon.argv = list(hargv)
+    _sys.argv[:] = list(hargv)
     try:
         mon.main()
         return ('exited', sim.now - sim.t0)
@@ -229,7 +260,7 @@ def extract():
     try:
         lk = fs.file_keepalive_based_lock(os.path.join(d, 'jd'), 'name')
         lk.get()
-        path_ok = seen.get('argv', [None])[-1] == lk.fullname
+        path_ok = lk.fullname in [str(a_) for a_ in seen.get('argv', [])[1:]]      # among the helper's arguments, spelled exactly as the lock uses it
         k0 = seen.get('killed', 0)
         lk.release()
         rel_kills = seen.get('killed', 0) > k0
@@ -349,6 +380,17 @@ def check(run):
                         run.fail('dead-not-failed', 'worker died at +%d s (last refresh +%.0f): is_failed() is False %d s (%.1f days) after the last refresh' % (death, last, age, age / 86400.0), dict(rp, age=age))
                         break
             run.corr_programs += 1
+    # 2b. a worker that is process 1 of its PID namespace (`jug execute` as the entry point of a container): alive all the time - its lock must be
+    #     refreshed like anybody else's and never be reported failed
+    sim = Sim(lambda r: 0.5, horizon=3 * E, parent=1)
+    st = run_monitor(sim)
+    run.case(('live-worker-pid1',), nontrivial=True)
+    run.count('pid1_worker_runs')
+    if st[0] != 'running' or sim.max_age >= E:
+        run.fail('live-worker-reported-dead:pid1', 'a live worker whose pid is 1 (first process of a container): its keep-alive helper %s; the lock was %s and reached an age of %d s (expiry %d s), so the '
+                 'worker is reported failed although it is alive and `cleanup --failed-only` would hand its task to somebody else'
+                 % ('ended after %d s' % st[1] if st[0] == 'exited' else 'runs', 'refreshed %d times' % len(sim.refreshes) if sim.refreshes else 'never refreshed', sim.max_age, E),
+                 {'kind': 'pid1-worker', 'horizon': 3 * E})
     # 3. external removal of the lock file
     for removal in ([10, 299, 300, 301, 1000] if quick else list(range(0, 2 * R * P, 13))):
         sim = Sim(lambda r: 0.5, removal=removal)
